@@ -11,7 +11,7 @@ use midnight_proofs::utils::{
 use serde_json::json;
 use vcore::{catch, rng_for, CaseOut, Ctx, Viol};
 
-use crate::util::{eval_by_powers, fhex, fhexs, horner, len_class, omega_for, outer_workers, powers_of, seeded_vec, GPool, POOLS_ALL};
+use crate::util::{eval_by_powers, fhex, fhexs, horner, len_class, omega_for, powers_of, seeded_vec, GPool, MIXED_POOL_WORKERS, POOLS_ALL};
 
 fn poly_patterns(seed: u64, tag: &str, n: usize) -> Vec<(&'static str, Vec<F>)> {
     let mut rng = rng_for(seed, &format!("c12-poly-{tag}-{n}"));
@@ -43,10 +43,15 @@ fn eval_polynomial_cases(cx: &mut Ctx) {
     // pool 32 makes the `2n < threads` branch reach n = 15
     let mut pools = POOLS_ALL.to_vec();
     pools.push(32);
-    for t in pools {
-        let cases: Vec<(String, usize)> = lens.iter().map(|n| (format!("len={n}:pool={t}"), *n)).collect();
-        cx.run_cases_with(&format!("eval_polynomial-pool{t}"), &cases, outer_workers(t), |n| {
-            let n = *n;
+    {
+        let mut cases: Vec<(String, (usize, usize))> = vec![];
+        for n in &lens {
+            for t in &pools {
+                cases.push((format!("len={n}:pool={t}"), (*t, *n)));
+            }
+        }
+        cx.run_cases_with("eval_polynomial", &cases, MIXED_POOL_WORKERS, |(t, n)| {
+            let (t, n) = (*t, *n);
             let mut out = CaseOut::batch();
             let gp = GPool::new(t);
             let seen = gp.observed_threads();
@@ -293,10 +298,16 @@ fn g_to_lagrange_cases(cx: &mut Ctx) {
         })
         .collect();
     cx.require(refs.iter().all(|r| r.selfcheck_ok), "g_to_lagrange reference: inverse DFT of the powers of s is not L_i(s)");
-    for t in POOLS_ALL {
-        let cases: Vec<(String, usize)> = (0..=kmax as usize).map(|k| (format!("k={k}:pool={t}"), k)).collect();
+    {
+        let mut cases: Vec<(String, (usize, usize))> = vec![];
+        for k in 0..=kmax as usize {
+            for t in POOLS_ALL {
+                cases.push((format!("k={k}:pool={t}"), (t, k)));
+            }
+        }
         let refs = &refs;
-        cx.run_cases_with(&format!("g_to_lagrange-pool{t}"), &cases, outer_workers(t), |k| {
+        cx.run_cases_with("g_to_lagrange", &cases, MIXED_POOL_WORKERS, |(t, k)| {
+            let t = *t;
             let r = &refs[*k];
             let mut out = CaseOut::batch();
             let gp = GPool::new(t);
